@@ -6,7 +6,7 @@
    [fmt |-> format, div |-> time division, tracks |-> sequence of tracks].
 
    Deltas are naturals in 0..CvBig.  TLC integers are 32 bit: the DOMAIN of the check keeps the sum of all
-   deltas of a source below CvBig = 2^30 (generated inputs: <= 402 events of <= 1 000 000 ticks each);
+   deltas of a source below CvBig = 2^30 (generated inputs: <= 402 events of <= 1 000 000 ticks each, plus at most three legal deltas of 2..2.6 * 10^8 ticks);
    whatever the library returns is mapped into 0..CvBig by the trace spec (CvBig = "too large") and absolute
    ticks saturate at CvBig, which no source tick can equal.
 
@@ -43,8 +43,10 @@ CvTerminated(tr) ==
 \* ---- the domain of the property --------------------------------------------------------------------
 CvInDomain(src) ==
   /\ CvTerminated(src.track)
-  /\ \A i \in 1..Len(src.track) : CvWellFormed(src.track[i].m) /\ src.track[i].d >= 0 /\ src.track[i].d <= 1000000
+  /\ \A i \in 1..Len(src.track) : CvWellFormed(src.track[i].m) /\ src.track[i].d >= 0 /\ src.track[i].d < 268435456
   /\ Len(src.track) <= 1000
+  \* the whole file stays below CvBig ticks (sum of the deltas; CvPlus saturates, so this is safe to evaluate)
+  /\ FoldLeft(LAMBDA t, ev : CvPlus(t, ev.d), 0, src.track) < CvBig
 
 \* ---- clause: time division kept, the result is multi-track ---------------------------------------
 CvDivKept(src, dest) == dest.fmt = 1 /\ dest.div = src.div
